@@ -48,6 +48,9 @@ structure Env where
   /-- the translator's fact: `round1.Update` compares `si.GetDataHash()` with `bh.Hash`
       before it counts the share. -/
   bindsHash : Bool
+  /-- the translator's fact: the loop of `round1.Start` handles each stored message under its own
+      `recover` (a panicking message is dropped, the loop goes on) instead of letting the panic escape. -/
+  startRecovers : Bool := false
   deriving Repr
 
 /-- `model.Param.GetGroupK`: ⌈n·51/100⌉. -/
@@ -124,6 +127,11 @@ def expectedStart2Steps : List R2Step :=
 def expectedAddWitnessSignSteps : List GStep := [.recoveredGuard, .force]
 def expectedAddWitnessForceSteps : List GStep := [.dupGuard, .store, .atThreshold, .belowThreshold]
 def expectedGenGroupSignSteps : List GStep := [.alreadyValid, .nilGuard, .storeRecovered, .emptyNote, .returnTrue]
+
+/-- Package-level variables the functions on the path may mention: only the curve order read by
+`recoverSignature`. A verification cache, a pooled point or a scratch buffer added to the path makes
+the regenerated list differ. -/
+def expectedPathGlobals : List String := ["recoverSignature:curveOrder"]
 
 /-- The statement order `update` (below) transcribes, for either value of the `bindsHash` fact. -/
 def expectedUpdateSteps (bindsHash : Bool) : List UStep :=
@@ -242,7 +250,8 @@ def startLoop {G : Type} (c : Crypto G) (env : Env) : RState G → List (VMsg G)
   | st, [] => (st, false, false)
   | st, m :: rest =>
     let r := update c env st m
-    if r.out = .panicked then (r.st, false, true)
+    if r.out = .panicked then
+      (if env.startRecovers then startLoop c env r.st rest else (r.st, false, true))
     else if r.err then (r.st, true, false)
     else startLoop c env r.st rest
 
